@@ -217,17 +217,21 @@ fn injector() -> sim::Injector {
 
 /// Everything a user can observe about contacts and search results, sample by sample.
 fn observation(res: &RunResult) -> Vec<String> {
-    let mut v: Vec<String> = vec![];
+    // (instant, rank, text): events of one millisecond are compared in a fixed order, not in the order in
+    // which the runtime happened to run the tasks that reported them
+    let mut ev: Vec<(u64, u8, String)> = vec![];
     for e in &res.api {
         match &e.kind {
-            ApiKind::Contacts { good, questionable } => v.push(format!("{} {} good={:?} questionable={:?}", e.t_ms, e.tag.split('#').next().unwrap_or(""), good, questionable)),
-            ApiKind::State { running, bootstrapped, good, questionable, buckets } => v.push(format!("{} state running={running} boot={bootstrapped} good={good} q={questionable} buckets={buckets}", e.t_ms)),
-            ApiKind::Item(a) if e.tag == "search" => v.push(format!("search item {a}")),
-            ApiKind::End if e.tag == "search" => v.push(format!("search end {}", e.t_ms)),
-            ApiKind::Resolved(b) => v.push(format!("{} boot {b}", e.t_ms)),
+            ApiKind::Contacts { good, questionable } => ev.push((e.t_ms, 3, format!("{} {} good={:?} questionable={:?}", e.t_ms, e.tag.split('#').next().unwrap_or(""), good, questionable))),
+            ApiKind::State { running, bootstrapped, good, questionable, buckets } => ev.push((e.t_ms, 4, format!("{} state running={running} boot={bootstrapped} good={good} q={questionable} buckets={buckets}", e.t_ms))),
+            ApiKind::Item(a) if e.tag == "search" => ev.push((e.t_ms, 1, format!("search item {a}"))),
+            ApiKind::End if e.tag == "search" => ev.push((e.t_ms, 2, format!("search end {}", e.t_ms))),
+            ApiKind::Resolved(b) => ev.push((e.t_ms, 0, format!("{} boot {b}", e.t_ms))),
             _ => {}
         }
     }
+    ev.sort();
+    let mut v: Vec<String> = ev.into_iter().map(|x| x.2).collect();
     // table dump through the probes: the set of nodes offered in answers to the 161 probes
     for k in 0..3 {
         let tagp = format!("probe{k}:");
